@@ -13,6 +13,8 @@ public:
   bool start(uint (*proc)(void*), void* param);
   template <class X> bool start(X& obj, uint (X::*ptr)())
   {
+    if(thread) // already started: the callable of the running thread must not be replaced
+      return false;
     typename Call<uint>::Member<X>::Func0 func(obj, ptr);
     this->func = *(Call<uint>::Member<Thread>::Func0*)&func;
     return start((uint (*)(void*))&proc< typename Call<uint>::Member<X>::Func0 >, &this->func);
